@@ -893,7 +893,11 @@ func followedByOpt(a, b *Event, below bool) bool {
 	if len(sa.Block().Succs) == 0 {
 		return false
 	}
-	return mustReachPS(sa.Parent(), sa.Block(), blockPredFor(sa.Block()), sb)
+	as, consistent := assumptionsBelow(ca[i-1].Fn, ca[i:], cb[i:])
+	if !consistent {
+		return false
+	}
+	return withAssumptions(as, func() bool { return mustReachPS(sa.Parent(), sa.Block(), blockPredFor(sa.Block()), sb) })
 }
 
 // blockPredFor: a predecessor to enter b from when b has exactly one (phi
@@ -1107,64 +1111,28 @@ func (cx *Ctx) reviewedDivisor(s abortSite) string {
 			}
 			for _, ci := range findCalls(f, func(ci ssa.CallInstruction) bool { return calleeIs(ci, "random/types", "MakePRNG") }) {
 				n++
-				names := ""
-				var sl func(v ssa.Value, d int)
-				sl = func(v ssa.Value, d int) {
-					if d > 8 {
-						return
+				// the timestamp argument is the block time's Unix()/UnixNano(), however it travels
+				// (a local, a parameter, a field of a small struct filled from the header)
+				fromHeader := func(v ssa.Value, _ []*ssa.Call) bool {
+					c, ok := v.(*ssa.Call)
+					if !ok {
+						return false
 					}
-					if cc, ok := v.(*ssa.Call); ok {
-						_, nm := calleeName(cc.Common())
-						names += nm + ";"
-					}
-					if pr, ok := v.(*ssa.Parameter); ok {
-						fn := pr.Parent()
-						for i, q := range fn.Params {
-							if q != pr {
-								continue
-							}
-							for _, cs := range cx.CallersOf(fn) {
-								cc := cs.Site.Common()
-								if !cc.IsInvoke() && cc.StaticCallee() == fn && i < len(cc.Args) {
-									sl(cc.Args[i], d+1)
-								}
-							}
-						}
-					}
-					if al, ok := v.(*ssa.Alloc); ok && al.Referrers() != nil {
-						// a local struct kept in memory (`header := ctx.BlockHeader()`): what was stored
-						for _, ref := range *al.Referrers() {
-							if st, ok := ref.(*ssa.Store); ok && st.Addr == al {
-								sl(st.Val, d+1)
-							}
-						}
-					}
-					if fv, ok := v.(*ssa.FreeVar); ok {
-						// captured by a closure: the binding at the creation site
-						if par := fv.Parent().Parent(); par != nil {
-							for _, b := range par.Blocks {
-								for _, ins := range b.Instrs {
-									if mc, ok := ins.(*ssa.MakeClosure); ok && mc.Fn == fv.Parent() {
-										for i, q := range fv.Parent().FreeVars {
-											if q == fv && i < len(mc.Bindings) {
-												sl(mc.Bindings[i], d+1)
-											}
-										}
-									}
-								}
-							}
-						}
-					}
-					if ins, ok := v.(ssa.Instruction); ok {
-						for _, op := range ins.Operands(nil) {
-							if op != nil && *op != nil {
-								sl(*op, d+1)
-							}
-						}
-					}
+					_, nm := calleeName(c.Common())
+					return strings.HasSuffix(nm, "Context.BlockHeader") || strings.HasSuffix(nm, "Context.BlockTime")
 				}
-				sl(ci.Common().Args[1], 0)
-				if !strings.Contains(names, "Time.Unix") || !(strings.Contains(names, "BlockHeader") || strings.Contains(names, "BlockTime")) {
+				isBlockUnix := func(v ssa.Value, st []*ssa.Call) bool {
+					c, ok := v.(*ssa.Call)
+					if !ok {
+						return false
+					}
+					_, nm := calleeName(c.Common())
+					if !(strings.HasSuffix(nm, "Time.Unix") || strings.HasSuffix(nm, "Time.UnixNano")) || len(c.Common().Args) == 0 {
+						return false
+					}
+					return cx.newSlicer(fromHeader, true).derives(c.Common().Args[0], st, -1)
+				}
+				if !cx.newSlicer(isBlockUnix, true).derives(ci.Common().Args[1], nil, -1) {
 					okAll = false
 				}
 			}
@@ -1179,6 +1147,19 @@ func (cx *Ctx) reviewedDivisor(s abortSite) string {
 }
 
 func init() {
+	dumps["dyn"] = func(cx *Ctx) {
+		for _, f := range cx.P.AllFuncs {
+			if f.Blocks == nil || !strings.Contains(shortFn(f), os.Getenv("IRISLINT_FN")) {
+				continue
+			}
+			for _, e := range cx.Edges(f) {
+				if e.Kind == "dynamic" {
+					k, ent := cx.tableDispatch(e.Site.(ssa.CallInstruction))
+					fmt.Printf("%s: dynamic -> %s synthetic=%q table=%v key=%v\n", shortFn(f), shortFn(e.Callee), e.Callee.Synthetic, ent != nil, k)
+				}
+			}
+		}
+	}
 	dumps["c04dbg"] = func(cx *Ctx) {
 		for _, e := range cx.entriesOfModule("htlc", "abci") {
 			ee := e
